@@ -55,6 +55,7 @@ type Contract struct {
 	Pos      string
 	Lit      *ast.FuncLit
 	Captured []string // closure contracts: names of captured variables (leading clause parameters)
+	LocalAlias map[string]localBinding // locals named in loop clauses that the current tree no longer has under that name (rename): bound by type and ordinal
 
 	// filled by generator
 	ParamNames  []string // receiver first
@@ -1054,6 +1055,7 @@ func (g *genCtx) sigFromDecl(c *Contract, fd *ast.FuncDecl) error {
 		c.ResultNames = append(c.ResultNames, n)
 		c.ResultTypes = append(c.ResultTypes, g.typeStr(r.Type()))
 	}
+	applyRecordedNames(c)
 	return nil
 }
 
@@ -1166,6 +1168,19 @@ func (g *genCtx) localsFor(expr string, loop ast.Stmt, fd *ast.FuncDecl, info *t
 		}
 		_, obj := scope.LookupParent(id, pos)
 		v, ok := obj.(*types.Var)
+		if obj == nil {
+			// not a name of the current tree: if the contract was bound to a local of that name when it
+			// was written (bindings.json), a renamed local is found again by its type and ordinal
+			if lb, ok := recordedLocal(c, id); ok {
+				if c.LocalAlias == nil {
+					c.LocalAlias = map[string]localBinding{}
+				}
+				c.LocalAlias[id] = lb
+				names = append(names, id)
+				typs = append(typs, lb.GoType)
+			}
+			continue
+		}
 		if !ok || v.IsField() {
 			continue
 		}
